@@ -388,6 +388,11 @@ class Gen:
                 rows[j][0] = -int(r.integers(1, 3))
         if len(rows) == 1 and r.random() < 0.5:
             st["cuts_1d"] = True
+        c2 = r.random()
+        if c2 < 0.3:
+            st["cuts_layout"] = self.choice(["view", "fortran", "readonly", "list"])
+        elif c2 < 0.4 and "cuts_dtype" not in st:
+            st["cuts_dtype"] = "int32"
         if bad:
             st["bad_cuts"] = True
         return st
